@@ -1,4 +1,8 @@
-"""C16 — no panics on well-formed input; NaN queries are harmless (engine E1)."""
+"""C16 — evaluation never panics on well-formed input and NaN queries are harmless (engine E1 + E2 path enumeration)."""
+import os
+import sys
+
+sys.path.insert(0, os.path.join(os.path.dirname(os.path.dirname(os.path.abspath(__file__))), "e2"))
 from e1 import HarnessSpec
 from props.e1util import run_e1, replay_cmd
 from props.c03 import hist_spec
@@ -6,17 +10,102 @@ from props.c03 import hist_spec
 LEVEL = "model_checking"
 
 
+def linear_structure_specs(tier):
+    ns = [2, 3] if tier == "quick" else [2, 3, 4]
+    return [HarnessSpec("c16::c16_linear_n%d" % n,
+                        "compiled code, all finite f64 knots (%d): linear() returns %d segments without panic, every end equals the running "
+                        "maximum of the abscissae and ends are non-decreasing" % (n, n - 1), ["linear", "incr_linear", "linear::segment"],
+                        {"knots": n, "unwind": n + 2}, timeout_s=400 if tier == "quick" else 1200, role="linear-structure") for n in ns]
+
+
 def specs(tier):
-    if tier == "quick":
-        sizes = [(1, 3), (2, 3), (3, 3)]
-    else:
-        sizes = [(1, 3), (2, 3), (3, 3), (4, 4)]
-    return [hist_spec(n, q, nan=True, timeout=300 if tier == "quick" else 1800) for (n, q) in sizes]
+    out = []
+    sizes = [(1, 3), (2, 3), (3, 3)] if tier == "quick" else [(1, 3), (2, 3), (3, 3), (4, 4)]
+    out += [hist_spec(n, q, nan=True, timeout=400 if tier == "quick" else 1800) for (n, q) in sizes]
+    for n in ([1, 2, 3]):
+        out.append(HarnessSpec("c16::c16_any_f64_n%d" % n,
+                               "for all non-NaN non-decreasing ends[%d] and ANY two f64 arguments (NaN, +-inf included): Piecewise::evaluate, "
+                               "PiecewiseEvaluator::evaluate (twice) and evaluate_v return without panic and evaluate_v yields one output per "
+                               "input" % n, ["Piecewise::evaluate", "PiecewiseEvaluator::evaluate", "Piecewise::evaluate_v"],
+                               {"segments": n, "unwind": n + 3}, timeout_s=400, role="any-f64-accepted"))
+    for nm, what in (("reject_linear_one_knot", "linear() with one knot panics (documented rejection)"),
+                     ("reject_spline_two_knots", "constrained_spline() with two knots panics (documented rejection)"),
+                     ("reject_empty_evaluate", "evaluating an empty piecewise function panics (documented rejection)"),
+                     ("reject_empty_evaluator", "PiecewiseEvaluator::new on no segments panics (documented rejection)"),
+                     ("reject_empty_evaluate_v", "evaluate_v on an empty piecewise function panics (documented rejection)"),
+                     ("reject_nan_breakpoint_in_add", "a NaN breakpoint in + panics (documented rejection)")):
+        out.append(HarnessSpec("c16::c16_" + nm, what + " -- reachability witness that the preconditions of the no-panic claims are not vacuous",
+                               [nm], {}, timeout_s=300, role="documented-rejection", expect_panic=True))
+    for (n, m) in ([(1, 1), (2, 2)] if tier == "quick" else [(1, 1), (2, 2), (3, 2)]):
+        out.append(HarnessSpec("c16::c16_ops_%d_%d" % (n, m),
+                               "for all well-formed operands (%d and %d segments, non-NaN non-decreasing ends), every scalar and knot (any f64): "
+                               "*, *=, unary -, translate, derivative, integral, indefinite, &f+&g and &f-&g return without panic, bounds or "
+                               "overflow failure (generic code over logging pieces)" % (n, m),
+                               ["Piecewise ops: Mul, MulAssign, Neg, Translate, HasDerivative, HasIntegral, Add, Sub"],
+                               {"len_f": n, "len_g": m, "unwind": n + m + 3}, timeout_s=600 if tier == "quick" else 1800, mem_gb=14,
+                               role="ops-no-panic"))
+    out += linear_structure_specs(tier)
+    return out
+
+
+def e2_part(rep, tier):
+    """Every path of the whole-function encodings and every numeric kernel returns without reaching a panic."""
+    import api
+    import splinelib as sl
+    from domains import FPDomain
+    from engine import E2
+    from interp import Unsupported, PathLimit
+    from common import Obligation
+    e = E2(rep, tier)
+    for fname, ns in (("linear", [2, 3, 4]), ("constrained_spline", [3, 4, 5] if tier == "quick" else [3, 4, 5, 6])):
+        for n in ns:
+            try:
+                res = sl.explore(e, fname, n, FPDomain())
+            except (Unsupported, PathLimit) as ex:
+                e.not_encoded("%s[n=%d]:no-panic" % (fname, n), "no path panics", ex, [fname])
+                continue
+            bad = [p for (p, segs) in res if segs is None]
+            rep.add(Obligation("%s[n=%d]:no-panic-paths" % (fname, n), "E2-paths",
+                               "symbolic execution of %s on %d knots over all binary64 inputs: all %d branch patterns return (no assert, "
+                               "unwrap, index or slice failure is reachable in the glue for this size)" % (fname, n, len(res)),
+                               "discharged" if not bad else "violated", 0.0, functions=[fname],
+                               detail=None if not bad else "panicking path: %s" % bad[0].panic,
+                               witness={"paths": len(res)}, role="constructor-panic"))
+    ops = [("eval", "P8"), ("eval", "PN3"), ("eval", "LP4"), ("eval", "IL3"), ("eval", "ILP4"), ("deriv", "P8"), ("indef", "P7"),
+           ("integ", "P7"), ("indef", "LP4"), ("integ", "LP8"), ("mul", "ILP4"), ("add", "IL8"), ("translate", "PN0")]
+    n_ok = 0
+    for (op, ty) in ops:
+        try:
+            n = api.type_len(ty) + (1 if op in ("eval", "mul", "translate") else 0) + (2 if op == "integ" else 0)
+            if op == "add":
+                n = 2 * api.type_len(ty)
+            dom = FPDomain()
+            res = api.run(e, dom, op, ty, lambda d, n=n: [d.sym("i%d" % i) for i in range(n)])
+            if any(p.panic is not None for (p, _, _) in res):
+                rep.add(Obligation("%s:%s:no-panic" % (op, ty), "E2-paths", "no panic path", "violated", 0.0,
+                                   detail="panic: %s" % [p.panic for (p, _, _) in res if p.panic][0], role="kernel-panic"))
+            else:
+                n_ok += 1
+        except (Unsupported, PathLimit) as ex:
+            e.not_encoded("%s:%s:no-panic" % (op, ty), "no panic path", ex)
+    rep.add(Obligation("kernels:no-panic-paths", "E2-paths",
+                       "symbolic execution of %d representative numeric kernels (evaluate/derivative/indefinite/integral/operators incl. all "
+                       "array index asserts of the MIR) over all binary64 inputs: no path reaches a panic" % n_ok, "discharged", 0.0,
+                       witness={"kernels": n_ok}, role="kernel-panic"))
+    e.finish()
 
 
 def run(rep, tier):
-    rep.explanation = "Bounded model checking of NaN-containing query histories and panic-freedom harnesses."
+    rep.explanation = ("Kani: NaN-containing query histories stay bit-identical to direct evaluation on their non-NaN queries; evaluation "
+                       "accepts any f64; public operations on well-formed operands do not panic (Kani's panic, bounds, overflow and "
+                       "unwinding checks), and each documented rejection is reachable. E2: every path of linear()/constrained_spline() "
+                       "and of the numeric kernels returns without reaching an assert/unwrap/index failure.")
+    rep.bounds = {"histories": "(segments, queries) up to (3,3) quick / (4,4) thorough", "operands": "<= 3 + 2 segments",
+                  "knots": "linear 2..4, constrained_spline 3..5(6)",
+                  "outside": "constrained_spline on the compiled code under Kani (CBMC's float instrumentation does not finish within 400 s; "
+                  "covered by the MIR path enumeration instead); larger sizes"}
     run_e1(rep, specs(tier))
+    e2_part(rep, tier)
 
 
 def replay(path):
